@@ -3,10 +3,10 @@ import OZ.Drv.NftIO
 Driver for C10 (every NFT has exactly one owner; enumerations mirror ownership).
 Models: OZ.Nft (sequential + explicit ids), OZ.NftEnum, OZ.NftCons at the bit level.
 
-The monitor does not run the model. It recomputes a PLAIN ownership map from the accepted
-operations alone (mint ↦ the returned / named id gets the recipient, batch ↦ the interval,
-transfer ↦ the named id moves, burn ↦ the named id disappears) and checks the property's
-conclusion on every observation of the implementation:
+`op` runs the model (`NftIO.stepLine` = print ∘ `NftMon.stepObs`). `mon` never does: it parses the
+op line and the IMPLEMENTATION's observation line and calls the monitor core
+`OZ.NftMon.Own.checkCore` (OZ/Model/NftMon.lean), which recomputes a PLAIN ownership map from the
+accepted operations alone and checks the property's conclusion on every observation:
   * every reported `owner_of` (windows and direct calls) equals the plain map, for every id;
   * an accepted transfer / burn names the token's current owner as `from`;
   * sequential / batch ids are never reused (each issue lies above everything issued before)
@@ -18,134 +18,19 @@ conclusion on every observation of the implementation:
   * idle time changes nothing (`nft.idle.changed`: after ledger gaps of 1, 31 and 100 days without any
     call every owner, balance, enumeration is still what the plain map says) and ids issued after a
     gap are still above every id issued before (`nft.idle.id_reused`).
-Explicit-id mints are judged under the fresh-id hypothesis of the property: when a mint hits
-an id that currently has an owner the monitor stops judging that sequence.
+Mints are judged under the fresh-id hypothesis of the property: when a mint hits an id that
+currently has an owner the monitor stops judging that sequence.
+
+The core is proved sound in OZ/Props/C10Mon.lean (`monitor_accepts_every_model_trace`: silent on
+every trace of the three models). NOT covered by that theorem, string level only: the alarm
+`site=nft.parse` below (an op / observation line that does not parse) and the parsers themselves.
 -/
 namespace OZ.Drv.C10
-open OZ.Drv OZ.Drv.NftIO
-
-structure Mon where
-  flavour : String
-  batches : List (Nat × Nat × Nat)       -- first, last, owner
-  over : List (Nat × Option Nat)         -- point overrides, most recent first
-  next : Nat                             -- every id issued by a counter so far is < next
-  bal : List Nat
-  live : Nat                             -- number of existing tokens
-  disabled : Bool
-  gap : Bool                             -- an idle gap of at least a day has passed
-  prev : Option Obs
-
-def ghostOwner (m : Mon) (id : Nat) : Option Nat :=
-  match m.over.find? (fun p => p.1 = id) with
-  | some (_, o) => o
-  | none =>
-    match m.batches.find? (fun (f, l, _) => f ≤ id ∧ id ≤ l) with
-    | some (_, _, o) => some o
-    | none => none
-
-def setOwner (m : Mon) (id : Nat) (o : Option Nat) : Mon :=
-  { m with over := (id, o) :: m.over.filter (fun p => p.1 ≠ id) }
-
-def addBal (l : List Nat) (i : Nat) (d : Int) : List Nat :=
-  l.mapIdx (fun j x => if j = i then (Int.ofNat x + d).toNat else x)
-
-def nodup (l : List Nat) : Bool :=
-  match l with
-  | [] => true
-  | x :: xs => !xs.contains x && nodup xs
-
-/-- first id of a run / direct query whose reported owner differs from the plain map -/
-def firstBadRun (m : Mon) (runs : List (Nat × Nat × Option Nat)) : Option String :=
-  runs.findSome? (fun (lo, hi, o) =>
-    ((List.range (hi + 1 - lo)).find? (fun k => ghostOwner m (lo + k) != o)).map (fun k =>
-      s!"site=nft.owner_of id={lo + k} reported={showOpt o} plain-map={showOpt (ghostOwner m (lo + k))}"))
-
-def checkList (what : String) (entries : List (Option Nat)) (count : Nat) (probe : Bool)
-    (okTok : Nat → Bool) : Option String :=
-  let body := entries.take count
-  let toks := body.filterMap id
-  if body.length ≠ count ∨ toks.length ≠ count then
-    some s!"site=nft.enum.{what} the list has fewer than {count} readable entries"
-  else if !nodup toks then some s!"site=nft.enum.{what} a token occurs twice: {toks}"
-  else if !toks.all okTok then some s!"site=nft.enum.{what} lists a token that does not belong there: {toks}"
-  else if probe ∧ entries.drop count ≠ [none] then
-    some s!"site=nft.enum.{what} index {count} (one past the end) is readable"
-  else none
+open OZ.Drv OZ.Drv.NftIO OZ.NftMon OZ.NftMon.Own
 
 def check (m : Mon) (opl obs : String) : Mon × Option String :=
-  match parseObs obs, parseOpLine opl with
-  | some o, some ol =>
-    if m.disabled then ({ m with prev := some o }, none) else
-    let a := fun (i : Nat) => ol.a.getD i 0
-    -- 1. the plain map follows the accepted operation
-    let (m1, fail1) : Mon × Option String :=
-      if ¬ o.ok then (m, none) else
-      match ol.kind with
-      | "mint" =>
-        match o.ret with
-        | none => (m, some "site=nft.mint.ret a sequential mint returned no id")
-        | some id =>
-          if id < m.next then (m, some s!"site={if m.gap then "nft.idle.id_reused" else "nft.mint.reused"} sequential mint issued {id}, already issued before (counter was {m.next})")
-          else if (ghostOwner m id).isSome then
-            if m.flavour = "exp" then ({ m with disabled := true }, none)   -- collides with an explicit id: hypothesis
-            else (m, some s!"site=nft.mint.reused sequential mint issued the owned id {id}")
-          else ({ setOwner m id (some (a 0)) with next := id + 1, bal := addBal m.bal (a 0) 1, live := m.live + 1 }, none)
-      | "mint_id" =>
-        if (ghostOwner m ol.id).isSome then ({ m with disabled := true }, none)
-        else ({ setOwner m ol.id (some (a 0)) with bal := addBal m.bal (a 0) 1, live := m.live + 1 }, none)
-      | "batch_mint" =>
-        match o.ret with
-        | none => (m, some "site=nft.batch.ret a batch mint returned no id")
-        | some last =>
-          if last + 1 < ol.n ∨ ol.n = 0 then (m, some s!"site=nft.batch.range batch of {ol.n} ends at {last}")
-          else
-            let first := last + 1 - ol.n
-            if first < m.next then (m, some s!"site={if m.gap then "nft.idle.id_reused" else "nft.batch.reused"} batch [{first},{last}] overlaps ids issued before (counter was {m.next})")
-            else ({ m with batches := (first, last, a 0) :: m.batches, next := last + 1,
-                           bal := addBal m.bal (a 0) ol.n, live := m.live + ol.n }, none)
-      | "transfer" | "transfer_from" =>
-        let (f, t) := if ol.kind = "transfer" then (a 0, a 1) else (a 1, a 2)
-        if ghostOwner m ol.id ≠ some f then
-          (m, some s!"site=nft.transfer.not-owner token {ol.id} moved from {f} but its owner is {showOpt (ghostOwner m ol.id)}")
-        else ({ setOwner m ol.id (some t) with bal := addBal (addBal m.bal f (-1)) t 1 }, none)
-      | "burn" | "burn_from" =>
-        let f := if ol.kind = "burn" then a 0 else a 1
-        if ghostOwner m ol.id ≠ some f then
-          (m, some s!"site=nft.burn.not-owner token {ol.id} burned from {f} but its owner is {showOpt (ghostOwner m ol.id)}")
-        else ({ setOwner m ol.id none with bal := addBal m.bal f (-1), live := m.live - 1 }, none)
-      | "advance" => ({ m with gap := m.gap || decide (ol.n ≥ 17280) }, none)
-      | _ => (m, none)
-    let m2 := { m1 with prev := some o }
-    if m1.disabled then (m2, none) else
-    match fail1 with
-    | some f => (m2, some f)
-    | none =>
-      -- 2. the implementation's answers against the plain map
-      let fail : Option String :=
-        match firstBadRun m1 o.own with
-        | some f => some f
-        | none =>
-        match firstBadRun m1 (o.oq.map (fun (id, ow) => (id, id, ow))) with
-        | some f => some f
-        | none =>
-        if o.bal ≠ m1.bal then some s!"site=nft.balance reported {o.bal} but the plain map counts {m1.bal}"
-        else if ol.qa.any (fun id => o.uri.contains id != (ghostOwner m1 id).isSome) then
-          some s!"site=nft.token_uri existence differs from ownership on {ol.qa}: {o.uri}"
-        else if m1.flavour = "enum" then
-          if o.ts ≠ some m1.live then some s!"site=nft.enum.total_supply reported {o.ts} but {m1.live} tokens exist"
-          else
-            match checkList "global" o.gl m1.live true (fun t => (ghostOwner m1 t).isSome) with
-            | some f => some f
-            | none =>
-              (List.range N).findSome? (fun acc =>
-                checkList s!"owner{acc}" (o.ol.getD acc []) (m1.bal.getD acc 0)
-                  (ol.kind ≠ "advance" ∧ ol.a.contains acc) (fun t => ghostOwner m1 t = some acc))
-        else none
-      -- an idle gap (no call at all) must leave every answer as the plain map has it
-      let fail := if ol.kind = "advance" then
-          fail.map (fun f => s!"site=nft.idle.changed after {ol.n} idle ledgers the contract answers differently: {f.replace "site=" "was-site="}")
-        else fail
-      (m2, fail)
+  match parseObs obs, parseLine opl with
+  | some o, some l => checkCore m l o
   | _, _ => (m, some s!"site=nft.parse unparsable line {obs}")
 
 def machine : Machine where
@@ -153,9 +38,7 @@ def machine : Machine where
   init := initM
   op := stepLine
   μ := Mon
-  minit := fun label =>
-    { flavour := (kv? (words label) "flavour").getD "seq", batches := [], over := [], next := 0,
-      bal := List.replicate N 0, live := 0, disabled := false, gap := false, prev := none }
+  minit := fun label => Own.init (labelFlavour label)
   mon := check
 
 end OZ.Drv.C10
